@@ -9,8 +9,25 @@ fn rgba_of(c: &ColorArg) -> [u8; 4] {
     match c {
         ColorArg::Rgb(a) => [a[0], a[1], a[2], 255],
         ColorArg::Rgba(a) => *a,
-        ColorArg::Str(_) => [0, 0, 0, 255],
+        // CSS functional notation as this generator writes it: `rgba(R, G, B, 0.dddd)` / `rgb(R, G, B)`
+        ColorArg::Str(s) => css_rgba(s).unwrap_or([0, 0, 0, 255]),
     }
+}
+
+fn css_rgba(s: &str) -> Option<[u8; 4]> {
+    let inner = s.strip_prefix("rgba(").or_else(|| s.strip_prefix("rgb("))?.strip_suffix(')')?;
+    let parts: Vec<&str> = inner.split(',').map(|x| x.trim()).collect();
+    if parts.len() < 3 {
+        return None;
+    }
+    let ch = |x: &str| -> Option<u8> { x.parse::<u8>().ok() };
+    let a = if parts.len() == 4 { (parts[3].parse::<f64>().ok()? * 255.0).round() as u8 } else { 255 };
+    Some([ch(parts[0])?, ch(parts[1])?, ch(parts[2])?, a])
+}
+
+/// equal up to the rounding of alpha conversion and of (de)multiplication when a colour came from a CSS string
+fn near(p: [u8; 4], c: [u8; 4], tol: u8) -> bool {
+    (0..4).all(|i| p[i].abs_diff(c[i]) <= tol)
 }
 
 /// `pix <hex> e m v k <ops> <fitw|-> <fith|-> => ok <w> <h> <cells per side> <uniform|-> <centres> <png 0/1> <bg rrggbbaa> <fg rrggbbaa>`
@@ -105,8 +122,9 @@ fn pix_core(head: String, input: &[u8], o: Opts, ops: &[Op], fits: Vec<(bool, u3
         }
     };
     let bg_px = if bg[3] == 0 { [0, 0, 0, 0] } else { bg };
+    let tol: u8 = if ops.iter().any(|o| matches!(o, Op::ModuleColor(ColorArg::Str(_)))) { 2 } else { 0 };
     let class = |p: [u8; 4]| -> char {
-        if p == fg {
+        if near(p, fg, tol) {
             'd'
         } else if p == bg_px {
             'l'
@@ -316,6 +334,23 @@ pub fn gen(out: &mut crate::gen::Out, rng: &mut Rng, thorough: bool) {
                 }
             }
         }
+    }
+    // module colour given as a CSS string with a fractional alpha, on a transparent background (so that the pixel IS
+    // the module colour): what users paste from a stylesheet
+    for k in 0..(if thorough { 60 } else { 6 }) {
+        let v = rng.below(if thorough { 10 } else { 3 });
+        let margin = *rng.pick(&[0usize, 2, 4]);
+        let cells = (21 + 4 * v + 2 * margin) as u32;
+        let (r, g, b) = (rng.byte(), rng.byte(), rng.byte());
+        let alpha = *rng.pick(&["0.5", "0.25", "0.75", "0.502", "0.9"]);
+        let (inp, o) = crate::gen::small_symbol(rng, &caps, v);
+        let ops = vec![
+            Op::Margin(margin),
+            Op::Shape(k % 6),
+            Op::ModuleColor(ColorArg::Str(format!("rgba({}, {}, {}, {})", r, g, b, alpha))),
+            Op::BackgroundColor(ColorArg::Rgba([255, 255, 255, 0])),
+        ];
+        out.job(move || pix_line(&inp, o, &ops, Some(cells * 5), None));
     }
     // histories of fit setters on one builder (last value of each kind wins; both kinds stay in force)
     for k in 0..(if thorough { 300 } else { 30 }) {
